@@ -138,7 +138,6 @@ def run(ctx):
         "rule": "random simple digraphs (hidden topological order; 1/3 with an injected self-loop, back edge or extra edge), n<=%d, library+contract edges; non-trivial = at least 2 edges; distinct by (n, edge list)" % maxn,
         "samples": [{"n": n, "edges": es, "impl": l} for (n, es, _), l in list(zip(cases, lines))[6:10]],
         "impl_outcomes": stats, "judgements": hist,
-        "explanation": "Theorems (all graphs, any fuel): an order returned by the model is a valid order; a cyclic graph never gets an order; the boolean order oracle and the cycle-certificate checker are sound. 'Acyclic => an order is produced' is not proved for the model: each observed rejection is instead certified by a cycle checked with the proved checker.",
+        "explanation": "Theorems (all well-formed graphs): an order returned by the model is a valid order; every acyclic graph gets a valid order; every cyclic graph gets the cycle error; default fuel always suffices; the boolean order oracle and the cycle-certificate checker are sound.",
     })
-    ctx.assumptions += ["model = code is established by exact comparison on the generated graphs only",
-                        "completeness (acyclic => Ok) validated per run by cycle certificates, not proved"]
+    ctx.assumptions += ["model = code is established by exact comparison on the generated graphs only"]
